@@ -219,19 +219,47 @@ func (x *Explorer) loopInvs(f *Frame, li *LoopInfo) []*Clause {
 	if f.contract == nil {
 		return nil
 	}
-	return f.contract.LoopInv[li.Ord]
+	return f.contract.LoopInv[x.eng.contractLoopOrd(f, li)]
 }
+
+const unrollBound = 2
 
 func (x *Explorer) atLoopHead(st *State, f *Frame, li *LoopInfo) {
 	if st.dead {
 		return
 	}
 	invs := x.loopInvs(f, li)
-	site := fmt.Sprintf("loop#%d", li.Ord)
+	if f.contract == nil && len(invs) == 0 && x.eng.helperIsNew(f.fn) {
+		// A loop in a helper that did not exist when the contracts were written (typically a loop
+		// that was extracted from the function under contract, whose invariants described it in
+		// that function's terms). No invariant can be given for it from outside; it is unrolled
+		// a fixed number of times instead and the result for the function is labelled bounded.
+		if f.unroll == nil {
+			f.unroll = map[*ssa.BasicBlock]int{}
+		} else {
+			nu := make(map[*ssa.BasicBlock]int, len(f.unroll))
+			for k, v := range f.unroll {
+				nu[k] = v
+			}
+			f.unroll = nu
+		}
+		f.unroll[li.Header]++
+		if !st.dry {
+			x.bounded[fmt.Sprintf("loop %d of %s (a helper the contracts do not know, explored inline) is unrolled %d times: obligations of the function under contract are decided for inputs that make it run at most %d times", li.Ord, x.eng.fnKey(f.fn), unrollBound, unrollBound)]++
+		}
+		if f.unroll[li.Header] > unrollBound+1 {
+			st.dead = true
+		}
+		return
+	}
+	site := fmt.Sprintf("loop#%d", x.eng.contractLoopOrd(f, li))
 	if f.name != "" {
 		site = f.name + "/" + site
 	}
-	framed := len(st.frames) == 1 && f.contract != nil
+	// the implicit frame invariant is relative to the function under contract, also for a loop in
+	// a helper that is explored inline
+	topF := st.frames[0]
+	framed := topF.contract != nil
 	frameOf := func(name string, cur *Term, mods []Loc, r *Term) *Term {
 		old := st.oldHeap[name]
 		if old == nil {
@@ -241,6 +269,14 @@ func (x *Explorer) atLoopHead(st *State, f *Frame, li *LoopInfo) {
 	}
 	if al := f.loops[li.Header]; al != nil {
 		// arrival over a back edge: preservation, then the path ends
+		if st.dry && al.ghostW != nil {
+			for k, v := range st.ghosts {
+				if !sameVal(v, al.headGhosts[k]) {
+					al.ghostW[ghostBase(k)] = true
+					al.ghostSample[k] = v
+				}
+			}
+		}
 		for name, sym := range al.havocSym {
 			if cur := st.heap[name]; cur != nil && !freshAbove(cur, sym, al.entryK) {
 				if st.dry {
@@ -258,12 +294,16 @@ func (x *Explorer) atLoopHead(st *State, f *Frame, li *LoopInfo) {
 			env := x.specEnv(st, f, f.contract)
 			env.iterHeap, env.iterCells = al.iterHeap, al.iterCells
 			for _, cl := range invs {
+				env.viewBases, env.viewHead = al.ghostW, al.headGhosts
+				if cl.Overall {
+					env.viewBases, env.viewHead = nil, nil
+				}
 				if g, ok := x.goalOf(st, env, cl, "inv-preserve", site); ok {
 					x.emit(st, "inv-preserve", cl.Label, site, g, cl.Where)
 				}
 			}
 			if framed {
-				mods := x.contractMods(st, f)
+				mods := x.contractMods(st, topF)
 				for _, name := range sortedKeys(al.written) {
 					cur := st.heap[name]
 					if cur == nil || strings.HasPrefix(name, "map:") || st.unframed[name] {
@@ -275,8 +315,9 @@ func (x *Explorer) atLoopHead(st *State, f *Frame, li *LoopInfo) {
 					st.skolems = st.skolems[:len(st.skolems)-1]
 				}
 			}
+			env.viewBases, env.viewHead = nil, nil
 			if f.contract != nil {
-				if dec := f.contract.LoopDec[li.Ord]; dec != nil && al.dec0 != nil {
+				if dec := f.contract.LoopDec[x.eng.contractLoopOrd(f, li)]; dec != nil && al.dec0 != nil {
 					env.goal = true
 					d := env.evalInt(dec.Expr)
 					x.emit(st, "decreases", "variant", site, And(Ge(al.dec0, IntLit(0)), Lt(d, al.dec0)), dec.Where)
@@ -290,9 +331,12 @@ func (x *Explorer) atLoopHead(st *State, f *Frame, li *LoopInfo) {
 	W := map[string]string{}
 	seen := map[string]bool{}
 	broken := map[string]bool{}
+	ghostW := map[string]bool{}
+	ghostSample := map[string]Val{}
 	entryK := int64(refBase + x.nextRef)
 	depth := len(st.frames)
 	for iter := 0; iter < 4; iter++ {
+		nGhostW := len(ghostW)
 		dry := st.clone()
 		dry.dry = true
 		dry.dryLoop = li
@@ -302,14 +346,13 @@ func (x *Explorer) atLoopHead(st *State, f *Frame, li *LoopInfo) {
 		dry.unchargedSeen = seen
 		df := dry.top()
 		x.havocLoop(dry, df, li, W)
+		x.havocLoopGhosts(dry, ghostW, ghostSample)
 		denv := x.specEnv(dry, df, df.contract)
-		for _, cl := range invs {
-			x.assumeClause(dry, denv, cl)
-		}
+		x.assumeAtHead(dry, denv, invs, ghostW)
 		for k := range broken {
 			delete(broken, k)
 		}
-		dal := &activeLoop{info: li, written: W, entryK: entryK, broken: broken, havocSym: map[string]*Term{}}
+		dal := &activeLoop{info: li, written: W, entryK: entryK, broken: broken, havocSym: map[string]*Term{}, ghostW: ghostW, ghostSample: ghostSample, headGhosts: copyGhosts(dry.ghosts)}
 		for n := range W {
 			dal.havocSym[n] = dry.heap[n]
 		}
@@ -327,7 +370,7 @@ func (x *Explorer) atLoopHead(st *State, f *Frame, li *LoopInfo) {
 				}
 			}
 		}
-		if !grew {
+		if !grew && len(ghostW) == nGhostW {
 			break
 		}
 	}
@@ -353,11 +396,16 @@ func (x *Explorer) atLoopHead(st *State, f *Frame, li *LoopInfo) {
 	// establishment, in the state before the havoc
 	var mods []Loc
 	if framed {
-		mods = x.contractMods(st, f)
+		mods = x.contractMods(st, topF)
 	}
 	if !st.dry {
 		env := x.specEnv(st, f, f.contract)
 		for _, cl := range invs {
+			// on entry no iteration has run: the per-iteration view starts from the entry state
+			env.viewBases, env.viewHead = ghostW, st.ghosts
+			if cl.Overall {
+				env.viewBases, env.viewHead = nil, nil
+			}
 			if g, ok := x.goalOf(st, env, cl, "inv-establish", site); ok {
 				x.emit(st, "inv-establish", cl.Label, site, g, cl.Where)
 			}
@@ -403,18 +451,17 @@ func (x *Explorer) atLoopHead(st *State, f *Frame, li *LoopInfo) {
 			st.assume(Forall([]*Term{r}, frameOf(name, st.heap[name], mods, r)))
 		}
 	}
+	x.havocLoopGhosts(st, ghostW, ghostSample)
 	env := x.specEnv(st, f, f.contract)
-	for _, cl := range invs {
-		x.assumeClause(st, env, cl)
-	}
-	al := &activeLoop{info: li, written: W, entryK: entryK, havocSym: havocSym, kept: havocSym, broken: broken}
+	x.assumeAtHead(st, env, invs, ghostW)
+	al := &activeLoop{info: li, written: W, entryK: entryK, havocSym: havocSym, kept: havocSym, broken: broken, ghostW: ghostW, ghostSample: ghostSample, headGhosts: copyGhosts(st.ghosts)}
 	al.iterHeap = copyHeap(st.heap)
 	al.iterCells = map[*ssa.Alloc]Val{}
 	for k, v := range f.cells {
 		al.iterCells[k] = v
 	}
 	if f.contract != nil {
-		if dec := f.contract.LoopDec[li.Ord]; dec != nil {
+		if dec := f.contract.LoopDec[x.eng.contractLoopOrd(f, li)]; dec != nil {
 			al.dec0 = env.evalInt(dec.Expr)
 		}
 	}
@@ -453,4 +500,251 @@ func freshAbove(cur, base *Term, k int64) bool {
 		cur = cur.Args[0]
 	}
 	return false
+}
+
+
+// ---- ghost state and loops -----------------------------------------------------------------
+//
+// Ghost state (observer records, channel counters) is program state: at a loop head the ghosts
+// that some iteration changes (found by the dry runs) become unconstrained - any number of
+// iterations may have run - with only their counters known not to have decreased. `loop N overall`
+// clauses read the ghosts as they are and are ordinary inductive invariants over them (proved
+// on entry and on every back edge, assumed at the head). `loop N invariant` clauses read those
+// ghosts *per iteration*: a counter counts from the head of the iteration (`pb.count == 1`: this
+// iteration published once), the was-called flag says "called in this iteration". Such a clause
+// describes the iteration that just ended, not the state at the head, so of an invariant only
+// the top-level conjuncts that do not read a changing ghost are assumed at the head. After the
+// loop the ghosts are what they are - head state plus the last, partial iteration - so clauses
+// after the loop and postconditions count every iteration.
+
+func ghostBase(key string) string {
+	for _, p := range []string{"recv:", "send:", "close:"} {
+		if strings.HasPrefix(key, p) {
+			if i := strings.LastIndex(key, "."); i > 0 {
+				return key[:i]
+			}
+			return key
+		}
+	}
+	if i := strings.Index(key, "."); i > 0 {
+		return "obs:" + key[:i]
+	}
+	return "obs:" + key
+}
+
+func copyGhosts(m map[string]Val) map[string]Val {
+	n := make(map[string]Val, len(m))
+	for k, v := range m {
+		n[k] = v
+	}
+	return n
+}
+
+func sameVal(a, b Val) bool {
+	switch p := a.(type) {
+	case VInt:
+		q, ok := b.(VInt)
+		return ok && p.T == q.T
+	case VPtr:
+		q, ok := b.(VPtr)
+		return ok && p.Ref == q.Ref && p.Alloc == q.Alloc && len(p.Path) == len(q.Path)
+	case VIface:
+		q, ok := b.(VIface)
+		return ok && p.Tag == q.Tag && p.Val == q.Val
+	case VSlice:
+		q, ok := b.(VSlice)
+		return ok && p.Arr == q.Arr && p.Off == q.Off && p.Len == q.Len
+	case VNil:
+		_, ok := b.(VNil)
+		return ok
+	case nil:
+		return b == nil
+	}
+	return reflect.DeepEqual(a, b)
+}
+
+// havocLoopGhosts: at a loop head, the ghosts of the bases in w are unknown but for their
+// counters not having gone down.
+func (x *Explorer) havocLoopGhosts(st *State, w map[string]bool, sample map[string]Val) {
+	for _, base := range sortedKeysB(w) {
+		cntKey, flagKey := ghostKeys(base)
+		c := st.freshInt("iters_so_far")
+		if cur, ok := st.ghosts[cntKey].(VInt); ok && cur.T != nil {
+			st.assume(Ge(c, cur.T))
+		} else {
+			st.assume(Ge(c, IntLit(0)))
+		}
+		st.ghosts[cntKey] = VInt{T: c}
+		if flagKey != "" {
+			st.ghosts[flagKey] = VInt{T: Gt(c, IntLit(0))}
+		}
+		keys := map[string]bool{}
+		for k := range sample {
+			if ghostBase(k) == base {
+				keys[k] = true
+			}
+		}
+		for k := range st.ghosts {
+			if ghostBase(k) == base {
+				keys[k] = true
+			}
+		}
+		for _, k := range sortedKeysB(keys) {
+			if k == cntKey || k == flagKey {
+				continue
+			}
+			if cur, ok := st.ghosts[k]; ok {
+				st.ghosts[k] = x.havocLike(st, cur)
+			} else {
+				st.ghosts[k] = x.havocLike(st, sample[k])
+			}
+		}
+	}
+}
+
+// assumeAtHead assumes the loop clauses at the head: overall clauses as they are, of the
+// per-iteration clauses the top-level conjuncts that read no changing ghost.
+func (x *Explorer) assumeAtHead(st *State, env *SpecEnv, invs []*Clause, w map[string]bool) {
+	for _, cl := range invs {
+		if cl.Overall {
+			x.assumeClause(st, env, cl)
+			continue
+		}
+		for _, c := range conjuncts(cl.Expr) {
+			if x.readsLoopGhost(st, c, w) {
+				continue
+			}
+			x.assumeClause(st, env, &Clause{Label: cl.Label, Text: cl.Text, Expr: c, Where: cl.Where})
+		}
+	}
+}
+
+func conjuncts(e *SExpr) []*SExpr {
+	if e != nil && e.Kind == "binary" && e.Op == "&&" && len(e.Args) == 2 {
+		return append(conjuncts(e.Args[0]), conjuncts(e.Args[1])...)
+	}
+	return []*SExpr{e}
+}
+
+// readsLoopGhost: does the expression mention a ghost of the set w?
+func (x *Explorer) readsLoopGhost(st *State, root *SExpr, w map[string]bool) bool {
+	if len(w) == 0 {
+		return false
+	}
+	obs := map[string]bool{}
+	if len(st.frames) > 0 && st.frames[0].contract != nil {
+		for _, o := range st.frames[0].contract.Observes {
+			obs[o.Name] = true
+		}
+	}
+	found := false
+	seenPred := map[string]bool{}
+	var walk func(e *SExpr, bound map[string]bool)
+	walk = func(e *SExpr, bound map[string]bool) {
+		if e == nil || found {
+			return
+		}
+		switch e.Kind {
+		case "ident":
+			if obs[e.Name] && !bound[e.Name] && w["obs:"+e.Name] {
+				found = true
+			}
+		case "call":
+			if len(e.Args) > 0 && e.Args[0].Kind == "ident" {
+				n := e.Args[0].Name
+				switch n {
+				case "recvCount", "recvOpen":
+					if len(e.Args) == 2 && w["recv:"+e.Args[1].Name] {
+						found = true
+					}
+				case "sendCount", "sent":
+					if len(e.Args) == 2 && w["send:"+e.Args[1].Name] {
+						found = true
+					}
+				case "closeCount":
+					if len(e.Args) == 2 && w["close:"+e.Args[1].Name] {
+						found = true
+					}
+				case "now":
+					if w["obs:time"] {
+						found = true
+					}
+				}
+				if p, ok := st.eng.db.Preds[n]; ok && !seenPred[n] {
+					seenPred[n] = true
+					pb := map[string]bool{}
+					for _, q := range p.Params {
+						pb[q] = true
+					}
+					walk(p.Body, pb)
+				}
+				for _, a := range e.Args[1:] {
+					walk(a, bound)
+				}
+				return
+			}
+		case "forall", "exists":
+			nb := map[string]bool{}
+			for k := range bound {
+				nb[k] = true
+			}
+			for _, b := range e.Bound {
+				nb[b] = true
+			}
+			for _, a := range e.Args {
+				walk(a, nb)
+			}
+			for _, h := range e.Hints {
+				walk(h, nb)
+			}
+			return
+		}
+		for _, a := range e.Args {
+			walk(a, bound)
+		}
+	}
+	walk(root, map[string]bool{})
+	return found
+}
+
+// havocLike: an unconstrained value of the same shape.
+func (x *Explorer) havocLike(st *State, v Val) Val {
+	switch p := v.(type) {
+	case VInt:
+		if p.T == nil {
+			return v
+		}
+		return VInt{T: st.freshSym("earlier_iter", p.T.Sort)}
+	case VPtr:
+		if p.Alloc != nil || p.Ref == nil || len(p.Path) != 0 {
+			return v
+		}
+		return VPtr{Ref: st.freshInt("earlier_iter_ref"), Root: p.Root}
+	case VIface:
+		return VIface{Tag: st.freshInt("earlier_iter_tag"), Val: st.freshInt("earlier_iter_val")}
+	case VSlice:
+		return VSlice{Arr: st.freshInt("earlier_iter_arr"), Off: st.freshInt("earlier_iter_off"), Len: st.freshInt("earlier_iter_len"), Cap: st.freshInt("earlier_iter_cap"), Elem: p.Elem}
+	case VStruct:
+		n := VStruct{T: p.T, F: make([]Val, len(p.F))}
+		for i, f := range p.F {
+			n.F[i] = x.havocLike(st, f)
+		}
+		return n
+	case VTuple:
+		n := VTuple{E: make([]Val, len(p.E))}
+		for i, f := range p.E {
+			n.E[i] = x.havocLike(st, f)
+		}
+		return n
+	}
+	return v
+}
+
+func sortedKeysB(m map[string]bool) []string {
+	r := make([]string, 0, len(m))
+	for k := range m {
+		r = append(r, k)
+	}
+	sort.Strings(r)
+	return r
 }
